@@ -151,7 +151,7 @@ def cases(rng, quick):
         if k < 0.93:
             return g.mcall(g.mcall(i.e(g.lst(c(1), c(2), c(3))), 'select', g.bn('+', i.l(X), c(1))), 'sum', i.e(c(0)))
         return g.mcall(g.call('selectCase', rnd(i, depth - 1), rnd(i, depth - 1)), 'switchCase', rnd(i, depth - 1), rnd(i, depth - 1), rnd(i, depth - 1))
-    for _ in range(3000 if quick else 30000):
+    for _ in range(3000 if quick else 120000):
         add(lambda i: rnd(i, rng.choice([2, 3, 4])), None, 'random')
     return out
 
@@ -184,7 +184,7 @@ def run(rep, tier, seed, keep=False):
             rep.sample({'text': desc[j][0], 'data': desc[j][1], 'real_log': [t[0] for t in desc[j][4]]})
         rep.rule = ('probes in every operand position of 11 binary and 2 unary operators, list/map/index constructors, and/or, ?., switch, '
                     'selectCase, switchCase, coalesce, ~25 eager-argument library calls (positional and keyword), 24 per-element lambda shapes x 4 '
-                    'inputs, and %d random compositions. Non-trivial = evaluations with >= 2 ticks that the model judges.' % (3000 if quick else 30000))
+                    'inputs, and %d random compositions. Non-trivial = evaluations with >= 2 ticks that the model judges.' % (3000 if quick else 120000))
         rep.assumptions = ['the relative order of lazily evaluated lambda probes and later eager siblings is not constrained (reading decision 3.0)']
     finally:
         if not keep:
